@@ -1,7 +1,6 @@
 package main
 
 import (
-	"bytes"
 	"fmt"
 	"sort"
 	"strconv"
@@ -35,19 +34,103 @@ func scaledLen(l int) int {
 	return l
 }
 
-func buildWitness(o *observation, an *analysis) *witness {
+func buildWitness(o *observation, an *analysis) *witness { return buildWitnessMode(o, an, false) }
+
+// qev is one event of a queue-mode run with the window in which it really happened.  The queue in
+// the Lean machine is C11's model (a Put is refused exactly when the queue is full, a take needs a
+// non-empty queue), so the witness has to order Puts and takes as they really happened.  The harness
+// sees a refused Put inside the queue's lock (RequestQueue.Failed), capacity changes and the
+// consumer's own events exactly, but an accepted Put only between the invocation and the return of
+// Send, and a take only between the end of the consumer's previous item and the moment it starts to
+// serialise the pack.  orderQueue picks, greedily by deadline, an order consistent with all windows
+// in which every Put / refusal / take is possible.
+type qev struct {
+	kind   string // put | fail | take | cap | bg | reconf
+	lo, hi int64
+	rec    *sendRec
+	n      int
+	ok     bool
+	placed bool
+}
+
+func orderQueue(evs []*qev, cap0 int) ([]*qev, string) {
+	sort.SliceStable(evs, func(i, j int) bool { return evs[i].hi < evs[j].hi })
+	var out []*qev
+	size, capv := 0, cap0
+	room := func() bool { return capv <= 0 || size < capv }
+	place := func(e *qev) {
+		e.placed = true
+		out = append(out, e)
+		switch e.kind {
+		case "put":
+			size++
+		case "take":
+			size--
+		case "cap":
+			capv = e.n
+		}
+	}
+	// the next unplaced event of a kind whose window has opened before `now`; takes strictly in their own order
+	pull := func(kind string, now int64) *qev {
+		var best *qev
+		for _, e := range evs {
+			if e.placed || e.kind != kind {
+				continue
+			}
+			if kind == "take" {
+				if e.lo < now {
+					return e
+				}
+				return nil
+			}
+			if e.lo < now && (best == nil || e.hi < best.hi) {
+				best = e
+			}
+		}
+		return best
+	}
+	for _, e := range evs {
+		if e.placed {
+			continue
+		}
+		switch e.kind {
+		case "put":
+			for !room() {
+				t := pull("take", e.hi)
+				if t == nil {
+					return nil, "an accepted Put with the queue full and no take that could have preceded it"
+				}
+				place(t)
+			}
+		case "fail":
+			for room() {
+				p := pull("put", e.hi)
+				if p == nil {
+					return nil, "a refused Put with room in the queue and no accepted Put that could have preceded it"
+				}
+				place(p)
+			}
+		case "take":
+			if size == 0 {
+				p := pull("put", e.hi)
+				if p == nil {
+					return nil, "a take from an empty queue"
+				}
+				place(p)
+			}
+		}
+		place(e)
+	}
+	return out, ""
+}
+
+// buildWitnessMode builds the driver line of an observation (`early` is kept for the callers' retry logic).
+func buildWitnessMode(o *observation, an *analysis, early bool) *witness {
 	w := &witness{msid: map[int]int{}, scaled: map[int]int{}}
 	for _, p := range o.Panics {
 		w.skip = "panic: " + p
 		return w
 	}
-	type item struct {
-		stamp int64
-		kind  string // "send" | "bg"
-		s     *sendRec
-		ok    bool
-	}
-	var items []item
 	minInv := int64(1 << 62)
 	for _, s := range o.Sends {
 		w.scaled[s.Sid] = scaledLen(s.Len)
@@ -56,76 +139,167 @@ func buildWitness(o *observation, an *analysis) *witness {
 		}
 	}
 	queue := o.Spec.Mode == "queue"
-	for _, s := range o.Sends {
-		if s.Made != 0 {
-			items = append(items, item{stamp: s.Made, kind: "send", s: s})
-		} else if !queue {
-			w.skip = "a direct send whose pack was never serialised"
-			return w
-		}
-	}
-	for _, e := range o.Log {
-		if queue || e.Process || e.Stamp < minInv {
-			items = append(items, item{stamp: e.Stamp, kind: "bg", ok: e.Kind == "connected"})
-		}
-	}
-	sort.Slice(items, func(i, j int) bool { return items[i].stamp < items[j].stamp })
-
-	var evs []string
-	next := 0
-	assign := func(s *sendRec) {
-		w.msid[s.Sid] = next
-		next++
-	}
 	okfail := func(b bool) string {
 		if b {
 			return "ok"
 		}
 		return "fail"
 	}
-	if queue {
-		for _, s := range o.Sends {
-			if s.Class == "enqueue" {
-				assign(s)
-				evs = append(evs, fmt.Sprintf("q,%d,%d,fail", s.Sender+1, w.scaled[s.Sid]))
-			}
-		}
+	cfgThread := o.Spec.Senders + 7
+	cap0 := o.Spec.QueueCap
+	if cap0 == 0 {
+		cap0 = 1000
 	}
-	for i, it := range items {
-		if it.kind == "bg" {
-			evs = append(evs, "b,"+okfail(it.ok))
-			continue
-		}
-		s := it.s
-		if queue {
-			if s.Class != "ok" {
-				w.skip = "a pack was taken from the queue although Send reported " + s.Class
+	var evs []string
+	next := 1 // the model numbers sends from 1 (0 is the queue's "nothing")
+	assign := func(s *sendRec) {
+		w.msid[s.Sid] = next
+		next++
+	}
+	if queue {
+		var all []*qev
+		var takes []*sendRec
+		for _, s := range o.Sends {
+			switch s.Class {
+			case "ok":
+				all = append(all, &qev{kind: "put", lo: s.Inv, hi: s.Ret, rec: s})
+				if s.Made != 0 {
+					takes = append(takes, s)
+				}
+			case "enqueue":
+				if s.failStamp != 0 {
+					all = append(all, &qev{kind: "fail", lo: s.failStamp, hi: s.failStamp, rec: s})
+				} else {
+					all = append(all, &qev{kind: "fail", lo: s.Inv, hi: s.Ret, rec: s})
+				}
+			default:
+				w.skip = "queue-mode send with result class " + s.Class
 				return w
 			}
-			assign(s)
-			evs = append(evs, fmt.Sprintf("q,%d,%d,ok", s.Sender+1, w.scaled[s.Sid]))
-			// the consumer's outcome is not reported by the client; it shows in what it does next
-			failed := i+1 < len(items) && items[i+1].kind == "bg"
-			evs = append(evs, "p,"+okfail(!failed))
-			continue
 		}
-		out := s.Class
-		switch out {
-		case "ok", "connect", "write", "flush":
-		case "deadline":
-			out = "write"
-		default:
-			w.skip = "direct send with result class " + out
+		var pside []int64 // the consumer's own exactly-stamped events (its connects)
+		for _, e := range o.Log {
+			kind := "bg"
+			if e.Apply {
+				kind = "reconf"
+			}
+			// the consumer's own connects are ordered exactly with its takes; a reconfiguration holds the
+			// send lock, which the consumer takes right after the take — the witness keeps a take (and the
+			// send that goes with it in the model) on its side of either
+			pside = append(pside, e.Stamp)
+			all = append(all, &qev{kind: kind, lo: e.Stamp, hi: e.Stamp, ok: e.Kind == "connected"})
+		}
+		for _, c := range o.CapEvents {
+			all = append(all, &qev{kind: "cap", lo: c.Stamp, hi: c.Stamp, n: c.Cap})
+		}
+		sort.Slice(takes, func(i, j int) bool { return takes[i].taken < takes[j].taken })
+		for k, s := range takes {
+			hi := s.taken
+			if hi == 0 {
+				hi = s.Made
+			}
+			lo := int64(0)
+			if k > 0 {
+				lo = takes[k-1].Made // the consumer finishes one item before it takes the next
+			}
+			for _, ps := range pside {
+				if ps < hi && ps > lo {
+					lo = ps
+				}
+			}
+			all = append(all, &qev{kind: "take", lo: lo, hi: hi, rec: s})
+		}
+		ordered, why := orderQueue(all, cap0)
+		if why != "" {
+			w.skip = "the order of concurrent Puts and takes could not be reconstructed: " + why
 			return w
 		}
-		assign(s)
-		evs = append(evs, fmt.Sprintf("d,%d,%d,%s", s.Sender+1, w.scaled[s.Sid], out))
-	}
-	if queue {
-		for _, s := range o.Sends {
-			if s.Class == "ok" && s.Made == 0 {
+		// FIFO: the k-th accepted Put is the k-th pack taken; Puts never taken follow in their own order
+		var putOrder []*sendRec
+		putOrder = append(putOrder, takes...)
+		var rest []*sendRec
+		for _, e := range ordered {
+			if e.kind == "put" && e.rec.Made == 0 {
+				rest = append(rest, e.rec)
+			}
+		}
+		putOrder = append(putOrder, rest...)
+		pi := 0
+		for i, e := range ordered {
+			switch e.kind {
+			case "bg":
+				evs = append(evs, "b,"+okfail(e.ok))
+			case "reconf":
+				evs = append(evs, fmt.Sprintf("r,%d,%s", cfgThread, okfail(e.ok)))
+			case "cap":
+				evs = append(evs, fmt.Sprintf("c,%d", e.n))
+			case "put":
+				s := putOrder[pi]
+				pi++
 				assign(s)
 				evs = append(evs, fmt.Sprintf("q,%d,%d,ok", s.Sender+1, w.scaled[s.Sid]))
+			case "fail":
+				assign(e.rec)
+				evs = append(evs, fmt.Sprintf("q,%d,%d,fail", e.rec.Sender+1, w.scaled[e.rec.Sid]))
+			case "take":
+				// the consumer's outcome is not reported by the client; it shows in what it does next:
+				// a (re)connect of its own right after this pack means the pack's write or flush failed
+				failed := false
+				for j := i + 1; j < len(ordered); j++ {
+					if ordered[j].kind == "take" {
+						break
+					}
+					if ordered[j].kind == "bg" {
+						failed = true
+						break
+					}
+				}
+				evs = append(evs, "p,"+okfail(!failed))
+			}
+		}
+	} else {
+		type item struct {
+			stamp int64
+			kind  string
+			s     *sendRec
+			ok    bool
+		}
+		var items []item
+		for _, s := range o.Sends {
+			if s.Made == 0 {
+				w.skip = "a direct send whose pack was never serialised"
+				return w
+			}
+			items = append(items, item{stamp: s.Made, kind: "send", s: s})
+		}
+		for _, e := range o.Log {
+			switch {
+			case e.Apply:
+				items = append(items, item{stamp: e.Stamp, kind: "reconf", ok: e.Kind == "connected"})
+			case e.Process || e.Stamp < minInv:
+				items = append(items, item{stamp: e.Stamp, kind: "bg", ok: e.Kind == "connected"})
+			}
+		}
+		sort.SliceStable(items, func(i, j int) bool { return items[i].stamp < items[j].stamp })
+		for _, it := range items {
+			switch it.kind {
+			case "bg":
+				evs = append(evs, "b,"+okfail(it.ok))
+			case "reconf":
+				evs = append(evs, fmt.Sprintf("r,%d,%s", cfgThread, okfail(it.ok)))
+			case "send":
+				s := it.s
+				out := s.Class
+				switch out {
+				case "ok", "connect", "write", "flush":
+				case "deadline":
+					out = "write"
+				default:
+					w.skip = "direct send with result class " + out
+					return w
+				}
+				assign(s)
+				evs = append(evs, fmt.Sprintf("d,%d,%d,%s", s.Sender+1, w.scaled[s.Sid], out))
 			}
 		}
 	}
@@ -135,15 +309,6 @@ func buildWitness(o *observation, an *analysis) *witness {
 			return w
 		}
 	}
-	cap := o.Spec.QueueCap
-	if cap == 0 {
-		cap = 1000
-	}
-	if len(o.Spec.Reconfig) > 0 {
-		// the capacity changes during the run; the model lets Put refuse at any time, so the run is
-		// replayed with an unbounded queue (what matters: nothing accepted leaves the queue unsent)
-		cap = 0
-	}
 	q := 0
 	if queue {
 		q = 1
@@ -152,8 +317,14 @@ func buildWitness(o *observation, an *analysis) *witness {
 	if len(evs) > 0 {
 		body = strings.Join(evs, ";")
 	}
-	w.line = fmt.Sprintf("S %d %d 1 %s", q, cap, body)
+	w.line = fmt.Sprintf("S %d %d 1 %s", q, cap0, body)
 	return w
+}
+
+// rejectedAtPut: the driver refused the witness at a Put / take event (its placement may be the harness's guess)
+func rejectedAtPut(out string) bool {
+	f := strings.Fields(out)
+	return len(f) >= 3 && f[0] == "reject" && (strings.HasPrefix(f[2], "q,") || strings.HasPrefix(f[2], "p,"))
 }
 
 // realRuns: what connection idx really received, as (model sid, scaled count) runs.
@@ -217,9 +388,9 @@ func compareConn(o *observation, an *analysis, w *witness, c *connObs, m [][2]in
 	if !ok {
 		return "a stream that is not a sequence of known frames"
 	}
-	_, tailBytes, _ := parseStream(c.data)
+	tailLen := an.TailLen[c.Idx]
 	whole := real
-	if len(tailBytes) > 0 {
+	if tailLen > 0 {
 		whole = real[:len(real)-1]
 	}
 	if len(real) > len(m) {
@@ -230,17 +401,17 @@ func compareConn(o *observation, an *analysis, w *witness, c *connObs, m [][2]in
 			return fmt.Sprintf("connection %d position %d: received send %d (%d bytes, scaled) where the model has send %d (%d bytes)", c.Idx, i, r[0], r[1], m[i][0], m[i][1])
 		}
 	}
-	if len(tailBytes) > 0 {
+	if tailLen > 0 {
 		// the incomplete frame at the end must be the beginning of the frame the model sent next
 		ms := m[len(whole)][0]
-		var fr []byte
+		okTail := false
 		for _, s := range o.Sends {
-			if k, ok := w.msid[s.Sid]; ok && k == ms {
-				fr = s.frame
+			if k, ok := w.msid[s.Sid]; ok && k == ms && an.TailCands[c.Idx][s.Sid] {
+				okTail = true
 			}
 		}
-		if len(tailBytes) >= len(fr) || !bytes.Equal(fr[:len(tailBytes)], tailBytes) {
-			return fmt.Sprintf("connection %d ends with %d bytes that are not the beginning of the frame the model sent next (send %d)", c.Idx, len(tailBytes), ms)
+		if !okTail {
+			return fmt.Sprintf("connection %d ends with %d bytes that are not the beginning of the frame the model sent next (send %d)", c.Idx, tailLen, ms)
 		}
 	}
 	if !c.Faulted && c.EOF {
@@ -305,15 +476,15 @@ func compareWitness(o *observation, an *analysis, w *witness, out string) string
 	res := parts[2][2:]
 	for _, s := range o.Sends {
 		m, ok := w.msid[s.Sid]
-		if !ok || m >= len(res) {
+		if !ok || m < 1 || m-1 >= len(res) {
 			continue
 		}
 		want := byte('0')
 		if s.Class == "ok" {
 			want = '1'
 		}
-		if res[m] != want {
-			return fmt.Sprintf("send %d: the client reported %q, the model result is %c", s.Sid, s.Class, res[m])
+		if res[m-1] != want {
+			return fmt.Sprintf("send %d: the client reported %q, the model result is %c", s.Sid, s.Class, res[m-1])
 		}
 	}
 	return ""
